@@ -318,12 +318,12 @@ def workload(tier, rng, shard, nshards, work):
                         minT = 0.0
                     if k % 7 == 0:
                         fn = os.path.join(str(work), "w%d" % (k % 3))
-                        call(tg.save, fn, fmt, blanks, minT, maxT, thr, "silence")
+                        call(tg.save, fn, fmt, blanks, minT, maxT, thr, ("silence", "warning", "silence", "error")[(k // 7) % 4])
                         ilast = max([t["entries"][-1][1] for t in data["tiers"] if t["t"] == "I" and t["entries"]] + [data["min"]])
                         if ilast > data["min"] and k % 3 != 0:  # a save that cannot succeed: the requested end cuts an entry
                             cut = (ilast + data["min"]) / 2
                             if cut > data["min"]:
-                                call(tg.save, fn if k % 2 == 0 else fn + "_new", fmt, True, None, cut, thr, "silence")
+                                call(tg.save, fn if k % 2 == 0 else fn + "_new", fmt, True, None, cut, thr, ("silence", "warning")[(k // 7) % 2])
                     else:
                         call(textgrid_io.getTextgridAsStr, _tgToDictionary(tg), fmt, blanks, minT, maxT, thr)
             agreement(tg, data, True, None if tiny else 1e-8)
